@@ -788,7 +788,13 @@ func (p *pp) printArg(arg interface{}, verb rune) {
 				return
 			}
 
-			if safeTypeRegistry[t] {
+			// The registry is keyed by concrete types: look through an
+			// interface-typed slot, like printValue does at depth > 0.
+			rt := t
+			if f.Kind() == reflect.Interface && !f.IsNil() {
+				rt = f.Elem().Type()
+			}
+			if safeTypeRegistry[rt] {
 				defer p.startSafeOverride().restore()
 			}
 
